@@ -71,6 +71,8 @@ class table_dict:
     ret = 'Dict[Table]'
     pure = True
 
+    on_demand = ('ensures_values_are_the_listed_objects',)
+
     def requires_named(self):
         return tables_named(self)
 
